@@ -8,15 +8,16 @@ import Gts.Model.Loc
 namespace Gts
 open Pars
 
-/-- one parsed `a to b` range; `none` = `gts.Range` panics (`b ≤ a-1`) -/
-def refRange : P (Option (Int × Int)) := do
+/-- one parsed `a to b` range `[a-1, b)`; an inverted or empty one (`b ≤ a-1`, on which
+`gts.Range` would panic) is a parse error (seqio/reference.go) -/
+def refRange : P (Int × Int) := do
   let a ← int
   lit (str " to ")
   let b ← int
-  if b ≤ a - 1 then pure none else pure (some (a - 1, b))
+  if b ≤ a - 1 then fail else pure (a - 1, b)
 
 /-- `pars.Many(pars.Seq("; ", range).Child(1))`; fuel bounds the repetitions by the input length -/
-def refMore : Nat → List (Option (Int × Int)) → P (List (Option (Int × Int)))
+def refMore : Nat → List (Int × Int) → P (List (Int × Int))
   | 0, acc => pure acc.reverse
   | k + 1, acc => do
     let s ← getS
@@ -24,10 +25,9 @@ def refMore : Nat → List (Option (Int × Int)) → P (List (Option (Int × Int
     | some r => refMore k (r :: acc)
     | none => do setS s; pure acc.reverse
 
-/-- `parseReferenceInfo(prefix)`: `some ranges`, `none` on a parse error; a `none` element
-marks a range on which `gts.Range` panics. -/
-def parseRefInfo (pref info : Bytes) : Option (List (Option (Int × Int))) :=
-  let p : P (List (Option (Int × Int))) := do
+/-- `parseReferenceInfo(prefix)`: `some ranges`, `none` on a parse error -/
+def parseRefInfo (pref info : Bytes) : Option (List (Int × Int)) :=
+  let p : P (List (Int × Int)) := do
     lit ([40] ++ pref ++ [32])
     let first ← refRange
     let rest ← refMore info.length []
@@ -52,32 +52,20 @@ def fmtRanges (pref : Bytes) (rs : List (Int × Int)) : Bytes :=
   let parts := rs.map fun r => intBytes (r.1 + 1) ++ str " to " ++ intBytes r.2
   [40] ++ pref ++ [32] ++ (parts.intersperse (str "; ")).flatten ++ [41]
 
-/-- what `Slice` does with one reference: `none` = dropped; `some none` = Go panic -/
-def sliceRefInfo (pref : Bytes) (a b : Int) (info : Bytes) : Option (Option Bytes) :=
+/-- what `Slice` does with one reference: `none` = dropped -/
+def sliceRefInfo (pref : Bytes) (a b : Int) (info : Bytes) : Option Bytes :=
   match parseRefInfo pref info with
-  | none => some (some info)                     -- unparsable: kept verbatim
-  | some rs =>
-    if rs.any Option.isNone then some none        -- gts.Range panics while parsing
-    else
-      let locs := rs.filterMap id
-      let olap := locs.filter fun r => Loc.rangeOverlap r.1 r.2 a b
-      if olap.isEmpty then none
-      else some (some (fmtRanges pref (olap.map (clipRange a b))))
+  | none => some info                            -- unparsable: kept verbatim
+  | some locs =>
+    let olap := locs.filter fun r => Loc.rangeOverlap r.1 r.2 a b
+    if olap.isEmpty then none
+    else some (fmtRanges pref (olap.map (clipRange a b)))
 
 /-- `refs[i].Number = i + 1` -/
 def renumber (infos : List Bytes) : List Ref := infos.zipIdx.map fun (i, k) => ⟨(k : Int) + 1, i⟩
 
-/-- the references after `Slice(a, b)`: clipped, dropped when disjoint, renumbered `1..m`;
-`none` = Go panic -/
-def sliceRefs (pref : Bytes) (a b : Int) (refs : List Ref) : Option (List Ref) :=
-  let step (acc : Option (List Bytes)) (r : Ref) : Option (List Bytes) :=
-    match acc with
-    | none => none
-    | some l =>
-      match sliceRefInfo pref a b r.info with
-      | none => some l
-      | some none => none
-      | some (some i) => some (i :: l)
-  (refs.foldl step (some [])).map fun l => renumber l.reverse
+/-- the references after `Slice(a, b)`: clipped, dropped when disjoint, renumbered `1..m` -/
+def sliceRefs (pref : Bytes) (a b : Int) (refs : List Ref) : List Ref :=
+  renumber (refs.filterMap fun r => sliceRefInfo pref a b r.info)
 
 end Gts
